@@ -401,16 +401,31 @@ func ncFatalPanic(stderr string) string {
 	blk := strings.TrimLeft(stderr[i:], "\n")
 	lines := strings.Split(blk, "\n")
 	out := []string{lines[0]}
+	// the frames of the PANICKING goroutine only (the first goroutine block), innermost first, whatever package
+	inBlock := false
 	for _, l := range lines[1:] {
-		if strings.HasPrefix(l, "github.com/basekick-labs/arc/") {
-			f := l
-			if p := strings.LastIndex(f, "("); p > 0 { // drop the argument list, keep (*T).method
-				f = f[:p]
-			}
-			out = append(out, strings.TrimPrefix(f, "github.com/basekick-labs/arc/"))
-			if len(out) >= 6 {
+		if strings.HasPrefix(l, "goroutine ") {
+			if inBlock {
 				break
 			}
+			inBlock = true
+			continue
+		}
+		if !inBlock || l == "" || strings.HasPrefix(l, "\t") || strings.HasPrefix(l, "created by ") || strings.HasPrefix(l, "panic(") {
+			if inBlock && l == "" {
+				break
+			}
+			continue
+		}
+		f := l
+		if p := strings.LastIndex(f, "("); p > 0 { // drop the argument list, keep (*T).method
+			f = f[:p]
+		}
+		f = strings.TrimPrefix(f, "github.com/basekick-labs/arc/")
+		f = strings.TrimPrefix(f, "github.com/apache/arrow-go/v18/")
+		out = append(out, f)
+		if len(out) >= 8 {
+			break
 		}
 	}
 	return strings.Join(out, " | ")
@@ -536,6 +551,9 @@ func ncRunRange(t *testing.T, casesPath, root string, cases []ncCase, lo, hi int
 			o.Died = true
 			o.DiedAt = o.Settled
 			o.Panic = ncFatalPanic(stderr.String())
+			if d := os.Getenv("VERIF_NC_STDERR"); d != "" { // debugging aid: keep the dead child's whole stderr
+				os.WriteFile(filepath.Join(d, fmt.Sprintf("stderr_case%d.txt", cases[next].ID)), stderr.Bytes(), 0o644) //nolint:errcheck
+			}
 			if werr != nil && o.Panic == "" {
 				o.Panic = werr.Error()
 			}
